@@ -67,6 +67,8 @@ def check_case(case):
     info = {"compositions": 0, "overshoot": 0, "float_collapse": 0}
     base = {k: v for k, v in case.items() if k not in ("compositions", "companion")}
     comps = [list(c) for c in case["compositions"]]
+    if base.get("shipped") and any(0 in c for c in comps):
+        base.pop("shipped")       # the shipped listeners raise on a zero-length batch (see o1_common.Run)
     kmax = max([sum(c) for c in comps] + [0])
     cap = 4 * max(case["lim"], kmax, 16) + 64
 
